@@ -90,6 +90,19 @@ def main():
     vb, _ = token.validate([bad])
     expect("token: a corrupted count is rejected", not vb[0]["accepted"])
 
+    # ... and the clauses evaluated at the harness' quiescent points are not vacuous: a log in which the orphan's token
+    # file is never taken back must be rejected there
+    r3 = t2.sc_owner_dies_running()
+    v3, _ = token.validate([r3])
+    bad = copy.deepcopy(r3)
+    names = [x["e"] for x in bad["ev"]]
+    i0, i1 = names.index("h.jobend"), names.index("h.quiescent")
+    bad["ev"] = bad["ev"][: i0 + 1] + [bad["ev"][i1]]          # nothing happens between the end of the job and the quiescent point
+    cut = i0 + 1
+    vb, _ = token.validate([bad])
+    expect("token: an orphan's token file that never comes back is rejected at the quiescent point",
+           v3[0]["accepted"] and not vb[0]["accepted"] and vb[0]["reached"] == cut, f"{v3[0]} {vb[0]} cut={cut}")
+
     # 4. configurations: one corrupted byte of a tapped identifier stream
     from . import cfgcheck, checks_config
 
